@@ -129,11 +129,13 @@ class Vt100Parser:
         flush = False
 
         while True:
-            flush = False
-
             if retry:
+                # Keep the flush flag while we retry with the remainder: a
+                # flush has to process everything that is in the buffer.
                 retry = False
             else:
+                flush = False
+
                 # Get next character.
                 c = yield
 
